@@ -95,6 +95,22 @@ class Host(object):
             data = b""
             self.model[path] = {"kind": "empty", "files": [], "writer": "peer"}
         elif state in ("tool_cas", "big_cas"):
+            if desc.get("exact_size"):
+                # choose the last file's length so that the whole tape is exactly desc["exact_size"] bytes long
+                def tape_len(n):
+                    return 533 + n + 6 * (-(-n // 255)) + 6
+                for shave in range(0, 8):
+                    if shave:
+                        files[-2] = dict(files[-2], data=files[-2]["data"][:-1])
+                    rest = sum(tape_len(len(f["data"])) for f in files[:-1])
+                    want = desc["exact_size"] - rest
+                    n = max(1, want - 539 - 6 * (want // 255) - 12)
+                    while tape_len(n) < want:
+                        n += 1
+                    if tape_len(n) == want and n <= 65535:
+                        fill = bytes(files[-1]["data"][:1]) or b"\x00"
+                        files[-1] = dict(files[-1], data=fill * n)
+                        break
             cont = mods["cassette"].CassetteFile()
             _, err = self.w.call(cont.add_files, [to_coco(f) for f in files])
             if err is not None:
@@ -104,6 +120,8 @@ class Host(object):
             self.model[path] = {"kind": "cas", "files": files, "writer": "tool"}
             if len(data) >= RD.IMAGE_SIZE:
                 self.res.stats["probe:cassette_at_least_disk_sized"] += 1
+            if len(data) == RD.IMAGE_SIZE:
+                self.res.stats["probe:cassette_exactly_disk_sized"] += 1
         elif state == "peer_cas":
             r = Rng(desc.get("seed", 0))
             data = b"".join(RT.write_file(dict(f, gap=r.choice([0, 0, 0xFF])), leader=r.choice([1, 64, 128, 300]),
